@@ -73,6 +73,7 @@ func runC05(p *Program, r *Report) {
 	c05guard(p, r, env, "C05.guard", nil)
 	c05emitlock(p, r, env, "C05.emitlock")
 	c05pair(p, r, env, "C05.pair")
+	c05leak(p, r, env, "C05.leak")
 	c05msglock(p, r, "C05.msglock")
 	c05closeorder(p, r, "C05.closeorder")
 	c05noreacquire(p, r, env, "C05.noreacquire")
@@ -716,4 +717,45 @@ func c07funnel(p *Program, r *Report, rule string) {
 		}
 	}
 	_ = types.Typ
+}
+
+// c05leak: a function does not return while still holding a lock it acquired itself, except the
+// designated hand-over (msgWriter.reset) and the terminal acquisitions of the teardown.
+var leakAllowed = map[string]string{
+	"msgWriter.reset|msgWriter.mu":     "returns holding the message lock on success: handed over to the Writer's Close / Conn.write",
+	"msgReader.close|Conn.readMu":      "terminal acquisition: the reader's resources are released and the lock is never given back",
+	"msgWriter.close|Conn.writeFrameMu": "terminal acquisition on teardown",
+	"msgWriter.close|msgWriter.writeMu": "terminal acquisition on teardown",
+	"mu.lock|param:m":                  "primitive",
+	"mu.forceLock|param:m":             "primitive",
+	"mu.tryLock|param:m":               "primitive",
+}
+
+func c05leak(p *Program, r *Report, env *lockEnv, rule string) {
+	la := env.la
+	n := 0
+	for _, fn := range p.Funcs {
+		prim := la.primitiveAcq(fn)
+		if prim == 0 {
+			continue
+		}
+		fname := p.FuncName(fn)
+		n++
+		bad := ""
+		pos := p.FuncPos(fn)
+		for ret, ls := range la.leaks[fn] {
+			for _, l := range la.Names(ls) {
+				if _, ok := leakAllowed[fname+"|"+l]; ok {
+					continue
+				}
+				bad += fmt.Sprintf("return at %s still holds %s; ", p.InstrPos(ret), l)
+				pos = p.InstrPos(ret)
+			}
+		}
+		r.UseFunc(fname)
+		r.Check(rule, fname, "every acquired lock is released before returning", pos, bad == "",
+			"a function that acquires a mutex releases it (directly, by defer, or through the designated release wrapper) on every return path; a leaked channel mutex makes the next acquirer — in particular close()'s forceLock — block forever",
+			firstNonEmpty(bad, "locks acquired here: {"+strings.Join(la.Names(prim), ",")+"}; all released on every return"))
+	}
+	r.Floor(rule, 10)
 }
